@@ -26,6 +26,10 @@ type PropSpec struct {
 	NotCovered  []string `json:"not_covered"`
 	Bounded     []BoundedSpec `json:"bounded"`
 	QuickTimeoutMs int `json:"quick_timeout_ms"`
+	// ClausesOnly: functions of which only the contract's own clauses (call-site obligations, postconditions,
+	// loop invariants, dyncall/nonblocking/immutable) are claimed, conditionally on the callees' preconditions
+	// and the function's own run-time safety, which are not established here and are reported as unclaimed
+	ClausesOnly []string `json:"clauses_only"`
 }
 
 type BoundedSpec struct {
@@ -142,6 +146,26 @@ func runProperty(p *Program, id, tier, work string, keep bool) int {
 	for _, k := range ps.Sweep {
 		addFunc(k, false)
 	}
+	unclaimed := map[string]int{}
+	for _, k := range ps.ClausesOnly {
+		n0 := len(units)
+		addFunc(k, true)
+		for _, u := range units[n0:] {
+			if u.gen == nil {
+				continue
+			}
+			var keep []*Obligation
+			for _, o := range u.gen.Obls {
+				switch o.Kind {
+				case "callsite", "ensures", "invariant-entry", "invariant-preserved", "exit", "dyncall", "nonblocking", "immutable":
+					keep = append(keep, o)
+				default:
+					unclaimed[u.Unit]++
+				}
+			}
+			u.gen.Obls = keep
+		}
+	}
 	for _, l := range ps.Lemmas {
 		lm := p.Specs.Lemmas[l]
 		if lm == nil {
@@ -232,6 +256,10 @@ func runProperty(p *Program, id, tier, work string, keep bool) int {
 		us := map[string]any{"unit": u.Unit, "kind": u.Kind, "obligations": len(u.Obls), "cover": u.Cover, "wall_s": round2(u.WallS), "instances": u.Instances}
 		if len(u.DeadReturns) > 0 {
 			us["unreachable_returns"] = u.DeadReturns
+		}
+		if n := unclaimed[u.Unit]; n > 0 {
+			us["unclaimed_safety_and_callee_precondition_obligations"] = n
+			us["claim"] = "contract clauses only, conditional on the callees' preconditions and this function's run-time safety"
 		}
 		if u.Error != "" {
 			us["error"] = u.Error
